@@ -135,3 +135,34 @@ Definition resolved_fields (tr : list (query_ * answer)) : list (name * name * f
 Definition field_features (fs : list (name * field_def)) : features := flat_map (fun nf => f_req (snd nf)) fs.
 Definition all_features (S : schema) : features :=
   flat_map (fun nt => type_req (snd nt) ++ field_features (fields_of (snd nt))) (types S).
+
+(** ** Request feature-set plumbing (api.go:236-238, graphqlws.go:46-64)
+
+    Config.Features is a function of the context, so what it answers may change over time (the
+    "environment").  API.ServeGraphQL evaluates it once per HTTP request (also for a persisted query
+    replayed by hash).  A WebSocket connection (both subprotocols) evaluates it once, when
+    connection_init is handled; every later operation of the connection and every event of its
+    subscriptions is validated and executed with THAT set, whatever the environment says by then;
+    operations before connection_init are ignored. *)
+Inductive pstep :=
+| PEnv (now : features)        (* the environment changes *)
+| PInit                        (* WebSocket: connection_init *)
+| POp.                         (* an operation (HTTP request / start / subscribe) or a subscription event *)
+
+(** the feature set each [POp] of a WebSocket connection runs with ([None]: ignored) *)
+Fixpoint ws_effective (env : features) (conn : option features) (h : list pstep) : list (option features) :=
+  match h with
+  | [] => []
+  | PEnv now :: r => ws_effective now conn r
+  | PInit :: r => ws_effective env (Some env) r
+  | POp :: r => conn :: ws_effective env conn r
+  end.
+
+(** ... of a sequence of HTTP requests *)
+Fixpoint http_effective (env : features) (h : list pstep) : list (option features) :=
+  match h with
+  | [] => []
+  | PEnv now :: r => http_effective now r
+  | PInit :: r => http_effective env r
+  | POp :: r => Some env :: http_effective env r
+  end.
